@@ -188,7 +188,10 @@ def case_single(sp, tier):
     spec = dict(leaves=[("a", sa, True), ("b", (2,), True), ("c", (), True)],
                 ops=[dict(name="f", inputs=["a", "b"], outs=[("y", sy)], deps={(0, 0), (0, 1)})])
     horder = choice(2, "set_order")
-    prog = Prog(spec, ranks={"a": horder, "b": 1 - horder, "c": 2, "y": 10})
+    f64 = choice(2, "float64_program") == 1
+    if f64:
+        torch.KERNELS["lossy_casts"] = True  # float64 -> float32 conversions are arbitrary perturbations, not the identity
+    prog = Prog(spec, ranks={"a": horder, "b": 1 - horder, "c": 2, "y": 10}, dtype=torch.float64 if f64 else None)
     ins = [["a", "b"], ["b", "a"], ["a"], ["b", "c", "a"]][choice(4, "inputs")]
     rows = prog["y"].numel()
     ks = chunk_options(rows)
@@ -197,4 +200,4 @@ def case_single(sp, tier):
     A = AStar()
     y = prog["y"]
     backward(y if choice(2, "tensor_or_list") == 0 else [y], A, inputs=as_container([prog[n] for n in ins], kind), parallel_chunk_size=k)
-    return _finish(sp, prog, spec, ["y"], ins, A, old, dict(chunk=k, hash_order=horder, container=["list", "tuple", "generator", "iterator"][kind]))
+    return _finish(sp, prog, spec, ["y"], ins, A, old, dict(chunk=k, hash_order=horder, container=["list", "tuple", "generator", "iterator"][kind], dtype="float64" if f64 else "float32"))
